@@ -690,6 +690,19 @@ def stream_authmut(rng, tier):
                     if tier == "thorough" or rng.random() < 0.15:
                         for o2 in single:
                             yield "hist u ref %s am[%s;%s]" % (hx(b), o1, o2)
+    # the dictionary: every policy scheme with every port and host the sources mention (all that are
+    # new against the baseline, a few of the rest), set through the handle
+    dports = [p for p in PORTS if p in FRESH] + [p for p in PORTS if p is not None and p not in FRESH][:8]
+    dhosts = [h for h in HOSTS if h in FRESH][:40] + ["h", "localhost"]
+    for sc in [x for x in SCHEMES if x in FRESH][:24] + POLICY_SCHEMES[:6]:
+        for b in [sc + "://h/p", sc + "://u@h:1/p?q#f", sc + "://h"]:
+            for pt in dports:
+                for f in "ui":
+                    yield "hist %s ref %s am[port:%s]" % (f, hx(b), hx(pt))
+                    yield "hist %s full %s am[port:%s]" % (f, hx(b), hx(pt))
+            for h in dhosts:
+                yield "hist u ref %s am[host:%s]" % (hx(b), hx(h))
+                yield "hist u full %s am[host:%s]" % (hx(b), hx(h))
     # respellings: the new sub-component equals the old one after percent-decoding only
     resp = [("s://ex%61mple.org:80/p", "host:" + hx("example.org")), ("s://example.org:80/p", "host:" + hx("ex%61mple.org")),
             ("s://%65xample.org/foo", "host:" + hx("example.org")), ("s://h%c3%a9/", "host:" + hx("h%C3%A9")),
@@ -786,6 +799,17 @@ def stream_cmp(rng, tier):
         for f in "ui":
             yield "cmp %s full %s %s" % (f, hx(a), hx(b))
         yield "cross u %s %s" % (hx(a), hx(b))
+    # every value the sources newly mention, in every component that may hold it, against spellings
+    # whose byte order and case-folded order disagree (`B…` sorts before `a…` as bytes, after it
+    # without case), its own upper / lower case, and a neighbour
+    for kind, lst in [("host", HOSTS), ("segment", SEGS), ("userinfo", USERINFOS), ("query", QUERIES), ("fragment", FRAGS)]:
+        for t in [x for x in lst if isinstance(x, str) and x in FRESH][:30]:
+            for a, b in [("B" + t, "a" + t), (t, t.upper()), (t, t.lower()), (t.capitalize(), t), (t + "B", t + "a"),
+                         ("B" + t, "C.x"), ("C.x", "a" + t), (t, t + "x")]:
+                for f in "ui":
+                    yield "cmp %s %s %s %s" % (f, kind, hx(a), hx(b))
+                    yield "cmp %s full %s %s" % (f, hx(wrap[kind] % a), hx(wrap[kind] % b))
+                yield "cross u %s %s" % (hx(wrap[kind] % a), hx(wrap[kind] % b))
     for a in dict_refs():
         for b in [a, a.upper(), a.lower(), a + "/", a.replace("//", "//localhost", 1) if "//" in a else a + "x"]:
             for f in "ui":
@@ -1404,6 +1428,21 @@ DICT_LISTS = ["SCHEMES", "HOSTS", "HOSTS_I", "PORTS", "SEGS", "SEGS_I", "QUERIES
 DICT_REFS = []
 _ORIG = None
 DICT_INFO = {"tokens": 0}
+# what the dictionary added for literals that are new against the baseline: the random draws favour it
+FRESH = set()
+
+
+class BiasedRandom(random.Random):
+    """`choice` on one of the dictionary-fed lists picks, three times out of ten, among the entries
+    that come from literals new in the tree under test (none on the unchanged tree: then this is
+    `random.Random`, draw for draw)"""
+
+    def choice(self, seq):
+        if FRESH and isinstance(seq, list) and any(seq is globals()[n] for n in DICT_LISTS):
+            fresh = [x for x in seq if x in FRESH]
+            if fresh and self.random() < 0.3:
+                return super().choice(fresh)
+        return super().choice(seq)
 
 
 def _pct_ok(t):
@@ -1430,8 +1469,29 @@ def set_dictionary(tokens, baseline=(), cap=48):
     for n in DICT_LISTS:
         g[n][:] = _ORIG[n]
     SETTER_VALUES["ss"][:] = _ORIG["ss"]
-    toks = sorted(set(t for t in tokens if t and t.isascii() and t.isprintable() and not re.search(r"\s", t)),
-                  key=lambda x: (len(x), x))
+    FRESH.clear()
+    raw = set(t for t in tokens if t and t.isascii() and t.isprintable() and not re.search(r"\s", t))
+    # a literal such as `jar:`, `;jsessionid=` or `.jar!` is also taken apart: the pieces between
+    # delimiters, and the literal without its leading / trailing delimiters
+    pieces = set()
+    for t in raw:
+        for part in re.split(r"[:/?#@;=!,&]+", t):
+            if part:
+                pieces.add(part)
+        st = t.strip(":/?#@;=!,&.")
+        if st:
+            pieces.add(st)
+    new_raw = set(t for t in raw if t not in baseline)
+    new_pieces = set()
+    for t in new_raw:
+        for part in re.split(r"[:/?#@;=!,&]+", t):
+            if part:
+                new_pieces.add(part)
+        st = t.strip(":/?#@;=!,&.")
+        if st:
+            new_pieces.add(st)
+    toks = sorted(raw | pieces, key=lambda x: (len(x), x))
+    baseline = set(x for x in toks if x not in new_raw and x not in new_pieces)
     unres = r"A-Za-z0-9._~\-"
     sub = r"!$&'()*+,;="
     cls = {
@@ -1454,15 +1514,21 @@ def set_dictionary(tokens, baseline=(), cap=48):
         step = max(1, len(rest) // (cap - cap // 2))
         return fresh + head + rest[::step][:cap - cap // 2]
 
+    fresh_tokens = set(t for t in toks if t not in baseline)
+
     def new(lst, items):
         seen = set(x for x in lst if isinstance(x, str))
         for it in items:
             if it not in seen:
                 lst.append(it)
                 seen.add(it)
+            if isinstance(it, str) and any(it == v or it.lower() == v.lower() or it[:-1] == v or it == v[:-1]
+                                           or it.lstrip("0") == v or it == v + "0" or it == "a" + v or it == v + "a"
+                                           for v in fresh_tokens):
+                FRESH.add(it)
 
     def variants(t):
-        return [t, t.upper(), t.lower(), t + "x", t[:-1]] if len(t) > 1 else [t]
+        return [t, t.upper(), t.lower(), t + "x", t[:-1], "a" + t, t + "a"] if len(t) > 1 else [t, "a" + t, t + "a"]
 
     sch = [v for t in pick("scheme") for v in variants(t) if re.fullmatch(r"[A-Za-z][A-Za-z0-9+.\-]*", v)]
     new(SCHEMES, sch)
@@ -1499,6 +1565,26 @@ def dict_refs():
     for sc in POLICY_SCHEMES:
         for tail in ["", "a", "/a/b", "//h/a/b?q#f", "//", "//h", "///a", "?q", "#f", "a/./b/../c", "//u@h:80/./a/../b"]:
             out.append(sc + ":" + tail)
+    fsch = [x for x in SCHEMES if x in FRESH][:12] + ["s"]
+    fseg = [x for x in SEGS if x in FRESH][:40]
+    fq = [x for x in QUERIES if isinstance(x, str) and x in FRESH][:20]
+    fhost = [x for x in HOSTS if x in FRESH][:20]
+    fport = [x for x in PORTS if isinstance(x, str) and x in FRESH][:10]
+    fui = [x for x in USERINFOS if isinstance(x, str) and x in FRESH][:10]
+    for sc in fsch:
+        for sg in fseg:
+            out += [sc + ":" + sg, sc + ":a/" + sg, sc + ":" + sg + "/b", sc + "://h/" + sg, sc + "://h/a/" + sg + "/../c",
+                    sc + ":x/" + sg + "/..", sc + "://u@h:1/p/" + sg + "?q#f", sc + ":/" + sg + "/", sg, "a/" + sg, sg + "/b"]
+        for q in fq:
+            out += [sc + "://h/p?" + q, sc + ":p#" + q, "?" + q, "#" + q, sc + ":a/b?" + q + "#" + q]
+        for h in fhost:
+            out += [sc + "://" + h, sc + "://" + h + "/p", sc + "://u@" + h + ":1/p"]
+            for pt in fport:
+                out += [sc + "://" + h + ":" + pt + "/p", sc + "://h:" + pt]
+        for pt in fport:
+            out += [sc + "://h:" + pt + "/p", "//h:" + pt]
+        for u in fui:
+            out += [sc + "://" + u + "@h/p", "//" + u + "@h", sc + "://" + u + ":pw@h:1/"]
     seen, res = set(), []
     for r in out:
         if r not in seen:
@@ -1530,7 +1616,7 @@ STREAMS = {
 
 
 def generate(stream, seed, tier, automata=None):
-    rng = random.Random("%s-%s-%s" % (stream, seed, tier))
+    rng = BiasedRandom("%s-%s-%s" % (stream, seed, tier))
     fn = STREAMS[stream]
     if stream == "ctor":
         return fn(rng, tier, automata)
